@@ -434,6 +434,63 @@ func c11stress(args []string) int {
 		}(g)
 	}
 	wg.Wait()
+	// ---------------- cold starts: a freshly loaded database whose FIRST searches run concurrently (anything the engine
+	// builds lazily on first use - an index, a memo of match targets - is then initialised under contention); every answer
+	// must equal the one computed alone on the warmed database
+	{
+		rounds := 12
+		if thorough {
+			rounds = 60
+		}
+		cr := NewRng(*seed, 7777, "c11stress-cold")
+		var fuzzyLive []*c11Case // cases that reach the typo fallback first: the paths with most lazily built state
+		for _, c := range live {
+			if c.Opts.UseFuzzy && len(c.exp) > 0 && len(c11Conv(db, db.SearchUniversal(c.Query, func() database.SearchOptions { o := c.Opts; o.UseFuzzy = false; return o }()))) == 0 {
+				fuzzyLive = append(fuzzyLive, c)
+			}
+		}
+		var nCold atomic.Int64
+		for round := 0; round < rounds; round++ {
+			fresh, err := database.LoadDatabase(dbPath)
+			if err != nil {
+				break
+			}
+			var fcdb *database.CachedDatabase
+			if round%2 == 1 {
+				fcdb = database.NewCachedDatabase(fresh)
+			}
+			start := make(chan struct{})
+			var cw sync.WaitGroup
+			for g := 0; g < G; g++ {
+				var c *c11Case
+				if len(fuzzyLive) > 0 && (round%3 != 2 || g%2 == 0) {
+					c = fuzzyLive[cr.Intn(len(fuzzyLive))]
+				} else {
+					c = live[cr.Intn(len(live))]
+				}
+				cw.Add(1)
+				go func(c *c11Case) {
+					defer cw.Done()
+					defer notePanic("cold-start goroutine")
+					<-start
+					var got []c11Res
+					if fcdb != nil {
+						got = c11Conv(fresh, fcdb.SearchWithOptionsAndCache(c.Query, c.Opts))
+					} else {
+						got = c11Conv(fresh, fresh.SearchUniversal(c.Query, c.Opts))
+					}
+					nCold.Add(1)
+					if !c11Equal(got, c.exp) {
+						record("first concurrent searches on a freshly loaded database", c, got)
+					}
+				}(c)
+			}
+			close(start)
+			cw.Wait()
+		}
+		rep.Calls["cold-start searches"] = nCold.Load()
+		rep.Calls["cold-start typo cases"] = int64(len(fuzzyLive))
+	}
 	rep.Calls["SearchUniversal"] = nDirect.Load()
 	rep.Calls["SearchWithOptionsAndCache"] = nCached.Load()
 	rep.Calls["SearchWithOptionsAndMonitoring"] = nMon.Load()
